@@ -11,6 +11,11 @@ PANICKING_INDEX_METHODS = {
     'std::vec::Vec::<T, A>::split_off': 'split_off',
     'std::collections::VecDeque::<T, A>::swap_remove_back': 'swap_remove_back',
 }
+# partial indexing: an out-of-range index silently yields None (the aggregator then yields nothing on non-empty input)
+PARTIAL_INDEX_METHODS = {
+    'core::slice::<impl [T]>::get': 'get', 'core::slice::<impl [T]>::get_mut': 'get_mut',
+    'std::collections::VecDeque::<T, A>::get': 'get', 'core::slice::<impl [T]>::select_nth_unstable': 'select_nth_unstable',
+}
 
 
 def _defs_of_locals(tree):
@@ -90,8 +95,11 @@ def index_bounded(idx, base, conds, defs, depth=0):
     return False, None
 
 
-def check_L9(ctx, rep, modules):
+def check_L9(ctx, rep, modules, partial=False):
     cr = ctx.lib('ascent')
+    methods = dict(PANICKING_INDEX_METHODS)
+    if partial:
+        methods.update(PARTIAL_INDEX_METHODS)
     found_mods = set()
     for path, b in sorted(cr.bodies.items()):
         mod = None
@@ -119,8 +127,8 @@ def check_L9(ctx, rep, modules):
             elif k == 'mcall':
                 c = n.get('c') or {}
                 nm = c.get('i') or c.get('d') or ''
-                if nm in PANICKING_INDEX_METHODS:
-                    base, idx, what = n['r'], n['a'][0], PANICKING_INDEX_METHODS[nm]
+                if nm in methods and n['a']:
+                    base, idx, what = n['r'], n['a'][0], methods[nm]
             if base is None:
                 continue
             rep.call_sites += 1
